@@ -5,6 +5,8 @@ import z3
 
 SOLVERS = {
     'z3-new': lambda f, t: ['z3-new', '-T:%d' % max(1, int(t)), f],
+    'z3-new-s1': lambda f, t: ['z3-new', '-T:%d' % max(1, int(t)), 'smt.random_seed=7', 'sat.random_seed=7', f],
+    'z3-new-s2': lambda f, t: ['z3-new', '-T:%d' % max(1, int(t)), 'smt.random_seed=23', 'smt.arith.random_initial_value=true', f],
     'z3':     lambda f, t: ['z3', '-T:%d' % max(1, int(t)), f],
     'cvc5':   lambda f, t: ['cvc5', '--tlimit=%d' % int(t * 1000), '--lang=smt2', f],
 }
@@ -85,7 +87,7 @@ class Portfolio:
         self.tier = tier
         self.jobs = jobs or min(16, os.cpu_count() or 4)
         self.timeout = 10 if tier == 'quick' else 60
-        self.order = order or ['z3-new', 'z3', 'cvc5']
+        self.order = order or ['z3-new', 'z3', 'cvc5', 'z3-new-s1', 'z3-new-s2']
         self.workdir = workdir or tempfile.mkdtemp(prefix='gvc-')
         self.own = workdir is None
         self.solver_seconds = 0.0
